@@ -225,7 +225,7 @@ func genIV(t *rapid.T) []byte {
 func Gen(t *rapid.T, o GenOpt) Case {
 	codecs := o.Codecs
 	if len(codecs) == 0 {
-		codecs = []string{"avc1", "avc1", "avc3", "hvc1", "hvc1", "mp4a", "mp4a"}
+		codecs = []string{"avc1", "avc1", "avc3", "hvc1", "hvc1", "hev1", "mp4a", "mp4a"}
 	}
 	c := Case{Codec: codecs[uni(t, len(codecs), "codec")]}
 	c.Scheme = pick(t, "scheme", "cenc", "cbcs")
@@ -272,7 +272,7 @@ func Gen(t *rapid.T, o GenOpt) Case {
 		a := genAVCSets(t)
 		c.Stsd = a.stsd(c.Codec, entryExtra...)
 		vc = a
-	case "hvc1":
+	case "hvc1", "hev1":
 		h := genHEVCSets(t)
 		c.Stsd = h.stsd(c.Codec, rapid.Bool().Draw(t, "complete"), entryExtra...)
 		vc = h
@@ -389,7 +389,7 @@ func Gen(t *rapid.T, o GenOpt) Case {
 			c.Samples = append(c.Samples, s)
 			continue
 		}
-		hev := c.Codec == "hvc1"
+		hev := c.Codec == "hvc1" || c.Codec == "hev1"
 		// leading non-VCL NAL units
 		if pct(t, 40, "aud") {
 			s.Nals = append(s.Nals, vc.nonVCL("aud", 0, uni(t, 3, "audtype")))
